@@ -7,6 +7,8 @@ package interp
 
 import (
 	"fmt"
+	"os"
+	"time"
 	"sort"
 	"strings"
 )
@@ -69,6 +71,7 @@ type explorer struct {
 	nameCtr int
 	inputs  []Input
 	ufs     map[string]string
+	bitsOf  map[string]string
 	known   []string // active known-finding labels
 	dead    bool     // path condition became unknown-infeasible
 
@@ -162,6 +165,11 @@ func (i *interpreter) decideAux(cond, site string, aux uint64, trueKnownFeasible
 		return d.Val == 1
 	}
 	rT := "sat"
+	if os.Getenv("SYMGO_SLOW") != "" {
+		e.s.SlowHook = func(d time.Duration) {
+			fmt.Fprintf(os.Stderr, "SLOW %v at %s cond=%.300s\n", d, site, cond)
+		}
+	}
 	if !trueKnownFeasible {
 		rT = e.s.Check(cond)
 	}
